@@ -15,7 +15,7 @@ PLAN = {
            + [("subgraph(any size)", c, "quick", 1, ("fresh", "source")) for c in ("MolGraph", "CondensedReactionGraph")]
            + [("subgraph(any size)", "StereoMolGraph", "quick", 1, ("fresh", "source"), 2), ("subgraph(any size)", "StereoCondensedReactionGraph", "quick", 1, ("fresh", "source"), 4)]
            + [("relabel_atoms(copy=True)", c, "quick", 1, ("fresh", "source")) for c in ("MolGraph", "CondensedReactionGraph")]
-           + [("relabel_atoms(copy=True)", "StereoMolGraph", "quick", 1, ("fresh", "source"), 2)]
+           + [("relabel_atoms(copy=True)", "StereoMolGraph", "quick", 1, ("fresh", "source"), 2), ("relabel_atoms(copy=True)", "StereoCondensedReactionGraph", "quick", 1, ("fresh", "source"), 4)]
            # the argument given as a one-shot iterator (bounded mode: <= 1 element)
            + [("subgraph", c, "quick", 1, ("fresh", "source")) for c in ("MolGraph", "CondensedReactionGraph")]
            + [("enantiomer", "StereoMolGraph", "quick", 1, ("fresh", "source")), ("enantiomer", "StereoCondensedReactionGraph", "quick", 1, ("fresh", "source"), 4)]
@@ -35,16 +35,20 @@ PLAN = {
             ("reverse_reaction", "CondensedReactionGraph", "quick", 1, ("view", "wf", "source"), 1),
             ("reverse_reaction", "StereoCondensedReactionGraph", "quick", 1, ("view", "wf", "source"), 3)],
     "C11": [("relabel_atoms(copy=True)", c, "quick", 1, ("view", "wf", "source")) for c in ("MolGraph", "CondensedReactionGraph")]
-           + [("relabel_atoms(copy=True)", "StereoMolGraph", "quick", 1, ("view", "wf", "source"), 2)],
+           + [("relabel_atoms(copy=True)", "StereoMolGraph", "quick", 1, ("view", "wf", "source"), 2),
+              ("relabel_atoms(copy=True)", "StereoCondensedReactionGraph", "quick", 1, ("view", "wf", "source"), 4)],
 }
 
 
-def ob_derivation(rep, world, dname, cname, pid, bound, want, timeout, focus=None, primary=True):
+SHARDS = 4  # worker processes per loop of a stereo reaction-graph derivation (each enumerates the paths, solves every 4th)
+
+
+def ob_derivation(rep, world, dname, cname, pid, bound, want, timeout, focus=None, primary=True, shard=None):
     from ..contracts.loop_invariants import LOOPS, SUMMARISE
 
     # the bounded variant of subgraph (one-shot iterator argument) keeps the unrolling; everything else uses the summarised comprehensions
     verify.verify_derivation(rep.obs, world, cname, dname, D.DERIVATIONS[dname](), pid, timeout=timeout, iter_bound=bound, want=want, loop_contracts=LOOPS,
-                             callee_contracts=verify.DESCR_CONTRACTS, focus_loop=focus, summarise=None if dname == "subgraph" else SUMMARISE)
+                             callee_contracts=verify.DESCR_CONTRACTS, focus_loop=focus, summarise=None if dname == "subgraph" else SUMMARISE, shard=shard)
     # keep the clauses that belong to this property (freshness clauses are named C10/...)
     rep.obs[:] = [o for o in rep.obs if o.name.startswith(pid + "/") or o.name.startswith("E1/")]
     if not primary:
@@ -58,10 +62,17 @@ def ob_invert(rep, world, pid, timeout):
     verify.verify_invert(rep.obs, world, pid, timeout)
 
 
+def ob_descr_init(rep, world, pid, timeout):
+    """constructor contract behind `d.__class__(image of d.atoms, d.parity)` (relabelling loops)"""
+    verify.verify_descr_init(rep.obs, world, pid, timeout)
+
+
 def tasks(pid, tier, timeout):
     out = []
     if pid == "C06":
         out.append(("ob_invert", (pid, timeout)))
+    if pid == "C11":
+        out.append(("ob_descr_init", (pid, timeout)))
     for dname, cname, first, bound, want, *nl in PLAN.get(pid, []):
         if first == "thorough" and tier == "quick":
             continue
@@ -73,10 +84,15 @@ def tasks(pid, tier, timeout):
                     # the loop-free remainder carries the result clauses: one task per clause family (they are independent)
                     for j, fam in enumerate(want):
                         out.append(("ob_derivation", (dname, cname, pid, bound, (fam,), timeout, focus, j == 0)))
+                elif focus > 0 and cname == "StereoCondensedReactionGraph":
+                    for k in range(SHARDS):
+                        out.append(("ob_derivation", (dname, cname, pid, bound, (), timeout, focus, True, (k, SHARDS))))
                 else:
                     out.append(("ob_derivation", (dname, cname, pid, bound, want if focus == 0 else (), timeout, focus)))
         else:
             out.append(("ob_derivation", (dname, cname, pid, bound, want, timeout)))
+    # the pool hands tasks out in order: the long ones (stereo reaction graphs, then stereo graphs) first
+    out.sort(key=lambda t: 0 if "StereoCondensedReactionGraph" in t[1] else (1 if "StereoMolGraph" in t[1] else 2))
     return out
 
 
@@ -85,6 +101,8 @@ def functions(world, pid):
     names = {"copy": "copy", "copy_constructor": "__init__", "subgraph": "subgraph", "subgraph(any size)": "subgraph", "enantiomer": "enantiomer", "relabel_atoms(copy=True)": "relabel_atoms", "reverse_reaction": "reverse_reaction", "reactant": "reactant", "product": "product"}
     if pid == "C06":
         out.append(src_info("stereodescriptors.py", "_StereoMixin.invert"))
+    if pid == "C11":
+        out.append(src_info("stereodescriptors.py", "_StereoMixin.__init__"))
     for dname, cname, *_ in PLAN.get(pid, []):
         dc, m = world.cls(cname).find(names[dname])
         if dc is not None:
